@@ -155,11 +155,14 @@ func headerSlots(typ uint, root *xcbor.Node) (commitSlots, error) {
 		}
 		s.Hash = h.Items[2]
 	case layByron:
-		if len(h.Items) < 3 || h.Items[2].Kind != xcbor.Array || len(h.Items[2].Items) != 4 {
+		// surplus elements after the four proofs / after the three tx-proof fields
+		// are header content, not body content: the commitment slots are the
+		// leading ones (C34 is about the body; the header's own shape is not judged)
+		if len(h.Items) < 3 || h.Items[2].Kind != xcbor.Array || len(h.Items[2].Items) < 4 {
 			return fail("byron body proof")
 		}
 		p := h.Items[2].Items
-		if p[0].Kind != xcbor.Array || len(p[0].Items) != 3 {
+		if p[0].Kind != xcbor.Array || len(p[0].Items) < 3 {
 			return fail("byron tx proof")
 		}
 		s.TxCount, s.Merkle, s.WitHash = p[0].Items[0], p[0].Items[1], p[0].Items[2]
